@@ -9,9 +9,11 @@ package main
 import (
 	"context"
 	"encoding/json"
+	"fmt"
 	"os"
 	"os/exec"
 	"path/filepath"
+	"regexp"
 	"strings"
 	"time"
 )
@@ -52,7 +54,12 @@ func (v *vc) replayTemplate(ob *obligation, work string, rep map[string]interfac
 	}
 	dir := strings.TrimPrefix(fn.Pkg.Pkg.Path(), modPath+"/")
 	testPath := filepath.Join(repoRoot, dir, "govc_replay_test.go")
-	ov, _ := json.Marshal(map[string]interface{}{"Replace": map[string]string{testPath: tmpl}})
+	replace := map[string]string{testPath: tmpl}
+	schedNote, schedErr := addSchedulePoints(tmpl, work, sanitize(ob.name), replace)
+	if schedErr != "" {
+		return false, "witness template could not place its schedule point: " + schedErr
+	}
+	ov, _ := json.Marshal(map[string]interface{}{"Replace": replace})
 	ovFile := filepath.Join(work, sanitize(ob.name)+".tmpl.overlay.json")
 	os.WriteFile(ovFile, ov, 0o644)
 	ctx, cancel := context.WithTimeout(context.Background(), 400*time.Second)
@@ -71,6 +78,9 @@ func (v *vc) replayTemplate(ob *obligation, work string, rep map[string]interfac
 	outs := string(outb)
 	rep["template"] = tmpl
 	rep["template_output"] = firstLines(outs, 14)
+	if schedNote != "" {
+		rep["schedule_points"] = schedNote
+	}
 	rep["replay_cmd"] = "cd /repo && go test" + raceNote + " -overlay <overlay mapping " + testPath + " to " + tmpl + "> -vet=off -timeout 120s -count=1 -v -run '^TestGovcReplay$' ./" + dir + "/"
 	if raceNote != "" && strings.Contains(outs, "WARNING: DATA RACE") {
 		return true, "witness template under the race detector: real code has a data race: " + strings.TrimSpace(firstLines(outs[strings.Index(outs, "WARNING: DATA RACE"):], 12))
@@ -84,4 +94,82 @@ func (v *vc) replayTemplate(ob *obligation, work string, rep map[string]interfac
 		return false, "witness template ran: the real code does not exhibit the failure on the template's input"
 	}
 	return false, "witness template did not run to completion"
+}
+
+// Schedule points. A witness for an interleaving that no test can hit by chance (a goroutine has to be held
+// between two statements for the whole duration of another operation) names the point in its header:
+//
+//	// govc-replay: schedule-point <file relative to /repo> <FuncName> <<source line, trimmed>>
+//
+// The runner copies the REAL file, inserts the one statement `GovcSchedulePoint("<FuncName>")` after the first
+// occurrence of that line inside the named function, and adds the copy plus a one-line hook file (a package
+// variable `GovcSchedulePoint func(string)`, a no-op unless the witness sets it) to the test overlay. Nothing is
+// written to /repo and no other byte of the file changes: the witness only decides WHEN a goroutine proceeds,
+// which is what a scheduler may do anyway.
+var schedHdr = regexp.MustCompile(`(?m)^// govc-replay: schedule-point (\S+) (\S+) <<(.*)>>\s*$`)
+
+func addSchedulePoints(tmpl, work, tag string, replace map[string]string) (note, errs string) {
+	src, err := os.ReadFile(tmpl)
+	if err != nil {
+		return "", ""
+	}
+	ms := schedHdr.FindAllStringSubmatch(string(src), -1)
+	if len(ms) == 0 {
+		return "", ""
+	}
+	files := map[string][]string{}
+	for _, m := range ms {
+		rel, fn, line := m[1], m[2], strings.TrimSpace(m[3])
+		real := filepath.Join(repoRoot, rel)
+		lines, ok := files[real]
+		if !ok {
+			data, err := os.ReadFile(real)
+			if err != nil {
+				return "", err.Error()
+			}
+			lines = strings.Split(string(data), "\n")
+		}
+		start := -1
+		for i, l := range lines {
+			if strings.HasPrefix(l, "func ") && strings.Contains(l, " "+fn+"(") || strings.HasPrefix(l, "func "+fn+"(") {
+				start = i
+				break
+			}
+		}
+		if start < 0 {
+			return "", "function " + fn + " not found in " + rel
+		}
+		at := -1
+		for i := start + 1; i < len(lines) && !strings.HasPrefix(lines[i], "}"); i++ {
+			if strings.TrimSpace(lines[i]) == line {
+				at = i
+				break
+			}
+		}
+		if at < 0 {
+			return "", "line <<" + line + ">> not found in " + fn + " of " + rel
+		}
+		indent := lines[at][:len(lines[at])-len(strings.TrimLeft(lines[at], "\t "))]
+		lines = append(lines[:at+1], append([]string{indent + "GovcSchedulePoint(\"" + fn + "\")"}, lines[at+1:]...)...)
+		files[real] = lines
+		note += rel + ": GovcSchedulePoint(\"" + fn + "\") inserted after <<" + line + ">>; "
+	}
+	n := 0
+	for real, lines := range files {
+		n++
+		cp := filepath.Join(work, fmt.Sprintf("%s.sched%d.go", tag, n))
+		os.WriteFile(cp, []byte(strings.Join(lines, "\n")), 0o644)
+		replace[real] = cp
+		pkg := "main"
+		for _, l := range lines {
+			if strings.HasPrefix(l, "package ") {
+				pkg = strings.Fields(l)[1]
+				break
+			}
+		}
+		hook := filepath.Join(work, fmt.Sprintf("%s.schedhook%d.go", tag, n))
+		os.WriteFile(hook, []byte("package "+pkg+"\n\n// GovcSchedulePoint is called at the schedule points a witness placed (no-op unless the witness sets it).\nvar GovcSchedulePoint = func(string) {}\n"), 0o644)
+		replace[filepath.Join(filepath.Dir(real), "govc_schedule_point.go")] = hook
+	}
+	return note, ""
 }
